@@ -20,7 +20,7 @@ gvars == <<vars, h>>
 
 \* --------------------------------------------------------------------------
 \* domains
-Names == <<"s1", "s2", "s3", "s4">>
+Names == IF Mode = "hs" THEN <<"s1", "s2", "s3", "s4", "s5", "s6", "s7", "s8", "s9", "s10", "s11", "s12", "s13", "s14", "s15", "s16", "s17", "s18">> ELSE <<"s1", "s2", "s3", "s4">>
 
 U_a == <<"a">>                U_ab == <<"a",".","b">>        U_abc == <<"a",".","b",".","c">>
 U_abx == <<"a",".","b","c">>  U_x == <<"x">>                 U_adot == <<"a",".">>
@@ -62,8 +62,13 @@ O0 == [ack |-> FALSE, xme |-> "", xl |-> <<>>, el |-> <<>>, hx |-> FALSE, he |->
 F0 == [limit |-> 0, reverse |-> FALSE, from_t |-> 0, after_t |-> 0, before_t |-> 0, until_t |-> 0,
        from_p |-> 0, after_p |-> 0, before_p |-> 0, until_p |-> 0, topic |-> <<>>]
 
+H0 == [first |-> "HELLO", realm |-> "ok", roles |-> "ok", methods |-> <<>>, authid |-> "", smuggle |-> FALSE,
+       color |-> "", feats |-> <<>>, local |-> TRUE, q |-> 0]
+A0 == [kind |-> "", key |-> "", ch |-> ""]
+
 In0 == [op |-> "", s |-> "", req |-> 0, uri |-> <<>>, tag |-> "", id |-> 0, ms |-> 0, how |-> "",
-        args |-> <<>>, uri2 |-> <<>>, f |-> F0, o |-> O0, prog |-> <<>>, join |-> [authid |-> "", color |-> "", feats |-> <<>>, local |-> TRUE, q |-> 0]]
+        args |-> <<>>, uri2 |-> <<>>, f |-> F0, o |-> O0, prog |-> <<>>, join |-> [authid |-> "", color |-> "", feats |-> <<>>, local |-> TRUE, q |-> 0],
+        hello |-> H0, resp |-> A0]
 
 N      == Len(h) + 1
 Tag    == "p" \o ToString(N)
@@ -99,6 +104,81 @@ GJoin ==
            j == [authid |-> IF local THEN lid ELSE rid, color |-> color, feats |-> feats, local |-> local, q |-> qs]
            i == [In0 EXCEPT !.op = "join", !.s = s, !.join = j]
        IN Step(i, JoinFx(Cur, s, j, NextId(used.sid)))
+
+\* --------------------------------------------------------------------------
+\* handshakes (C09)
+FreeName == CHOOSE n \in 1..Len(Names) : Names[n] \notin DOMAIN sess /\ \A m \in 1..(n-1) : Names[m] \in DOMAIN sess
+HasFree  == \E n \in 1..Len(Names) : Names[n] \notin DOMAIN sess
+MethodLists == {<<>>, <<"anonymous">>, <<"ticket">>, <<"wampcra">>, <<"cryptosign">>, <<"bogus", "ticket">>, <<"#", "wampcra">>,
+                <<"", "cryptosign">>, <<"bogus">>, <<"#">>, <<"wampcra", "ticket">>, <<"cryptosign", "anonymous">>,
+                <<"anonymous", "ticket">>, <<"ticket", "cryptosign">>}
+HsUsers == {"alice", "bob", "carol", "mallory", ""}
+
+DoHello(hh) ==
+  LET s == Names[FreeName]
+      i == [In0 EXCEPT !.op = "hello", !.s = s, !.hello = hh]
+  IN HasFree /\ Step(i, HelloFx(Cur, s, hh, NextId(used.sid)))
+
+\* somebody who will certainly be attached (an observer for the others)
+GHelloObserver ==
+  \E feats \in R({FeatAll, <<>>}) :
+    IF ~cfg.auth.lauth THEN DoHello([H0 EXCEPT !.authid = "u1", !.feats = feats])
+    ELSE IF cfg.auth.anon THEN DoHello([H0 EXCEPT !.local = FALSE, !.methods = <<"anonymous">>, !.feats = feats])
+    ELSE DoHello([H0 EXCEPT !.local = FALSE, !.methods = <<cfg.auth.methods[1]>>, !.authid = "bob", !.feats = feats])
+
+GHello ==
+  \E first \in W(<<"HELLO", "HELLO", "HELLO", "HELLO", "HELLO", "HELLO", "HELLO", "SUBSCRIBE", "AUTHENTICATE", "none">>),
+     realm \in W(<<"ok", "ok", "ok", "ok", "ok", "ok", "ok", "missing", "empty">>),
+     roles \in W(<<"ok", "ok", "ok", "ok", "ok", "ok", "ok", "none", "unknown", "badtype">>),
+     local \in W(<<FALSE, FALSE, FALSE, TRUE>>), ml \in R(MethodLists), one \in R({"ticket", "wampcra", "cryptosign"}),
+     authid \in R(HsUsers), smuggle \in R(BOOLEAN), echo \in R(1..3), feats \in R({FeatAll, <<>>}) :
+    \* echo: take user and method of an earlier peer (so that its transcript can be replayed)
+    LET prev == {x \in DOMAIN sess : sess[x].attrs.authid \in {"alice", "bob", "carol"}}
+        pm(x) == IF sess[x].st \in {"pending", "rejected"} THEN sess[x].hs.method ELSE sess[x].attrs.authmethod
+        cand == {x \in prev : pm(x) \in {"wampcra", "cryptosign", "ticket"}}
+    IN IF echo = 1 /\ cand # {}
+       THEN \E x \in R(cand) : DoHello([H0 EXCEPT !.local = FALSE, !.methods = <<pm(x)>>, !.authid = sess[x].attrs.authid,
+                                                     !.smuggle = smuggle, !.feats = feats])
+       ELSE DoHello([H0 EXCEPT !.first = first, !.realm = realm, !.roles = roles, !.local = local,
+                               !.methods = IF echo = 2 THEN <<one>> ELSE ml, !.authid = authid, !.smuggle = smuggle, !.feats = feats])
+
+Challenged == {s \in Pending(Cur) : sess[s].hs.method # "nohello"}
+DoAuth(s, aa) ==
+  LET i == [In0 EXCEPT !.op = "auth", !.s = s, !.resp = aa] IN Step(i, AuthFx(Cur, s, aa, NextId(used.sid)))
+
+GAuthGood == \E s \in R(Challenged) : DoAuth(s, [A0 EXCEPT !.kind = "sig", !.key = sess[s].attrs.authid])
+
+GAuth ==
+  IF Challenged = {} THEN GHello
+  ELSE \E s \in R(Challenged) :
+    LET me == sess[s].attrs.authid
+        m  == sess[s].hs.method
+        pm(x) == IF sess[x].st \in {"pending", "rejected"} THEN sess[x].hs.method ELSE sess[x].attrs.authmethod
+        same == {x \in DOMAIN sess \ {s} : sess[x].attrs.authid = me /\ pm(x) = m}
+        anych == {x \in DOMAIN sess \ {s} : pm(x) = m}
+    IN \E kind \in W(<<"valid", "valid", "valid", "replay", "replay", "replay", "wrongkey", "otherch", "garbage", "other">>),
+          other \in R({"alice", "bob", "carol"} \ {me}) :
+       CASE kind = "replay" /\ same # {} -> \E x \in R(same) : DoAuth(s, [kind |-> "sig", key |-> me, ch |-> x])
+         [] kind = "otherch" /\ anych # {} -> \E x \in R(anych) : DoAuth(s, [kind |-> "sig", key |-> sess[x].attrs.authid, ch |-> x])
+         [] kind = "wrongkey" -> DoAuth(s, [kind |-> "sig", key |-> other, ch |-> ""])
+         [] kind = "garbage"  -> DoAuth(s, [kind |-> "garbage", key |-> "", ch |-> ""])
+         [] kind = "other"    -> DoAuth(s, [kind |-> "other", key |-> "", ch |-> ""])
+         [] OTHER             -> DoAuth(s, [kind |-> "sig", key |-> me, ch |-> ""])
+
+GHsDrop ==
+  IF Pending(Cur) = {} THEN GHello
+  ELSE \E s \in R(Pending(Cur)) : Step([In0 EXCEPT !.op = "hsdrop", !.s = s], HsDropFx(Cur, s))
+
+GIntrude ==
+  LET rej == {s \in DOMAIN sess : sess[s].st = "rejected"} IN
+  IF rej = {} THEN GHello
+  ELSE \E s \in R(rej) : Step([In0 EXCEPT !.op = "intrude", !.s = s, !.req = N, !.tag = Tag], IntrudeFx(Cur, s))
+
+\* an observer subscribes to every meta topic
+GWampSub ==
+  \E s \in J :
+    LET i == [In0 EXCEPT !.op = "subscribe", !.s = s, !.req = N, !.uri = U_wampdot, !.o = [O0 EXCEPT !.match = "prefix"]]
+    IN Step(i, SubscribeFx(Cur, s, N, U_wampdot, "prefix", NextId(used.sub)))
 
 SidLists == {<<>>} \cup {<<a>> : a \in Sids} \cup {<<a, b>> : a \in Sids, b \in Sids} \cup {<<77>>}
 
@@ -310,6 +390,7 @@ GBurstMix ==
 
 GAdvance ==
   LET dls == {calls[c].deadline - now : c \in {cc \in DOMAIN calls : calls[cc].deadline # 0}}
+             \cup {sess[s].hs.deadline - now : s \in Pending(Cur)}
   IN \E pick \in R(1..3) : \E d \in R(IF dls # {} THEN dls ELSE {1}) :
      \E ms \in (IF retry # <<>> THEN W(<<1, 5, 70000, 70000>>)
                 ELSE IF dls # {} /\ pick # 1 THEN W(<<d, d, IF d > 1 THEN d - 1 ELSE d, d + 1>>)
@@ -406,7 +487,9 @@ GGetEvents ==
 GenNext ==
   /\ Len(h) < Depth
   /\ \E coin \in R(1..2) :
-     \E kind \in (IF Cardinality(J) < 2 /\ \E n \in DOMAIN Names : Names[n] \notin DOMAIN sess
+     \E kind \in (IF Mode = "hs"
+                   THEN (IF J = {} /\ Challenged = {} THEN {"helloobs"} ELSE IF J = {} THEN {"authgood"} ELSE W(KindBag))
+                   ELSE IF Cardinality(J) < 2 /\ \E n \in DOMAIN Names : Names[n] \notin DOMAIN sess
                    THEN {"join"}
                    ELSE IF Len(h) = Depth - 1 /\ \E n \in DOMAIN KindBag : KindBag[n] = "bmix" THEN {"bmix"}
                    \* a kill-mode cancel is outstanding: let the callee answer soon
@@ -440,6 +523,13 @@ GenNext ==
        [] kind = "kill"   -> GKill
        [] kind = "tst"    -> GTestament
        [] kind = "hist"   -> GGetEvents
+       [] kind = "hello"  -> GHello
+       [] kind = "helloobs" -> GHelloObserver
+       [] kind = "auth"   -> GAuth
+       [] kind = "authgood" -> GAuthGood
+       [] kind = "hsdrop" -> GHsDrop
+       [] kind = "intrude" -> GIntrude
+       [] kind = "wsub"   -> GWampSub
        [] OTHER           -> GAdvance
 
 HistCfgs == {<<[u |-> U_ab, m |-> "exact", n |-> 2]>>,
@@ -454,13 +544,17 @@ AuthzSets == {<<[mt |-> "PUBLISH", who |-> "remote", dec |-> "deny"], [mt |-> "C
               <<[mt |-> "UNREGISTER", who |-> "any", dec |-> "fail"], [mt |-> "YIELD", who |-> "remote", dec |-> "rewrite"],
                 [mt |-> "PUBLISH", who |-> "local", dec |-> "deny"]>>,
               <<[mt |-> "PUBLISH", who |-> "any", dec |-> "allow"]>>}
+AuthCfgs == {[anon |-> an, methods |-> ms, lauth |-> la, crtmo |-> tmo] :
+               an \in BOOLEAN, la \in BOOLEAN, tmo \in {2000, 60000},
+               ms \in {<<"ticket", "wampcra", "cryptosign">>, <<"wampcra">>, <<"cryptosign", "ticket">>, <<"ticket">>, <<"cryptosign">>}}
 GenCfg(st, d, hc, az, la) == [strict |-> st, disclose |-> d, metakill |-> TRUE, hcfg |-> hc, users |-> Users,
-                              authz |-> az, lauthz |-> la]
+                              authz |-> az, lauthz |-> la, late |-> FALSE, template |-> FALSE, closed |-> FALSE, auth |-> AuthCfg0]
 
 \* several initial states: the simulator draws one per behaviour
 GenInit == h = <<>> /\ \E st \in {0, 1, 2}, d \in BOOLEAN, hc \in (IF Mode = "hist" THEN HistCfgs ELSE {<<>>}),
                             az \in (IF Mode = "authz" THEN AuthzSets ELSE {<<>>}), la \in (IF Mode = "authz" THEN BOOLEAN ELSE {FALSE}) :
-                         InitWith(GenCfg(st = 2, d, hc, az, la))
+                         \E au \in (IF Mode = "hs" THEN AuthCfgs ELSE {AuthCfg0}) :
+                         InitWith([GenCfg(st = 2, d, hc, az, la) EXCEPT !.auth = au])
 GenSpec == GenInit /\ [][GenNext]_gvars
 
 \* prints the finished scenario (evaluated on every state of the simulation)
